@@ -37,7 +37,7 @@ func selfValidate(p *Property, repo, verif string) []map[string]interface{} {
 	kk := map[string]bool{}
 	for _, k := range known.Findings {
 		if k.Property == p.ID {
-			kk[k.Key] = true
+			kk[normKey(k.Key)] = true
 		}
 	}
 	applied := 0
@@ -68,7 +68,7 @@ func selfValidate(p *Property, repo, verif string) []map[string]interface{} {
 			p.Run(c)
 			var fresh []string
 			for _, o := range c.Obs {
-				if !o.OK && !kk[o.Key] {
+				if !o.OK && !kk[normKey(o.Key)] && !(o.AltKey != "" && kk[o.AltKey]) {
 					fresh = append(fresh, o.Key)
 				}
 			}
